@@ -10,7 +10,7 @@ use sux::dict::{EliasFano, EliasFanoBuilder, EliasFanoConcurrentBuilder};
 use sux::prelude::*;
 
 macro_rules! ef_c03 {
-    ($name:ident, $n:expr, $u:expr) => {
+    ($name:ident, $n:expr, $u:expr, $l:expr) => {
         pub mod $name {
             use super::super::*;
             const N: usize = $n;
